@@ -2,6 +2,7 @@ package main
 
 import (
 	"encoding/json"
+	"errors"
 	"fmt"
 	"math/rand"
 	"os"
@@ -103,12 +104,25 @@ func walkAll(run *evid.Run, cfgs []sessrep.CfgRec, perCfg, steps int) []sessrep.
 			sem <- struct{}{}
 			defer func() { <-sem }()
 			srv := drv.Start(sessrep.DrvCfg(cfg))
-			defer srv.Stop()
+			defer func() { srv.Stop() }()
 			var mine []sessrep.OneWalk
 			for w := 0; w < perCfg; w++ {
 				seed := run.Seed*1000003 + int64(i)*1009 + int64(w)
 				rng := rand.New(rand.NewSource(seed))
 				evs, hist, err := sessrep.Walk(srv, cfg, rng, steps)
+				var stuck *drv.StuckError
+				if errors.As(err, &stuck) {
+					last := "?"
+					if len(hist) > 0 {
+						last = hist[len(hist)-1].Cmd
+					}
+					run.Report(evid.Div{Prop: "C04", Key: "hang:walk:" + stuck.Where, Msg: fmt.Sprintf("random walk: no reply after %s - %v\n%s", last, stuck, stuck.Dump),
+						Replay: map[string]interface{}{"engine": "trace", "cfg": cfg, "walk_seed": seed, "transcript": hist}})
+					// the server is wedged on that connection: use a fresh one
+					srv.Stop()
+					srv = drv.Start(sessrep.DrvCfg(cfg))
+					continue
+				}
 				if err != nil {
 					mu.Lock()
 					if firstErr == nil {
